@@ -229,8 +229,43 @@ func c02Run(x *engine.X) {
 	if len(rows) >= 2 {
 		x.Nontrivial(x.Describe())
 	}
-	checkFileAgainstSpec(x, shape, buf.Bytes(), nil, cfg.maxRows)
-	x.Outcome(fmt.Sprint(buf.Len()))
+	data := buf.Bytes()
+	// the WriteRowGroup copy / re-encode paths emit files too: rewrite the
+	// file through them (one more deviation)
+	if via := x.Deviate(3, "via"); via > 0 {
+		src, err := parquet.OpenFile(bytes.NewReader(data), int64(len(data)))
+		if err != nil {
+			x.Failf("read-error", shape, "OpenFile: %v", err)
+			return
+		}
+		opts := append([]parquet.WriterOption{}, cfg.opts...)
+		name := "copy"
+		if via == 2 {
+			name = "reencode"
+			if cfg.codecName == "snappy" {
+				opts = append(opts, parquet.Compression(codecs[2]))
+			} else {
+				opts = append(opts, parquet.Compression(codecs[1]))
+			}
+		}
+		x.Descf("via=WriteRowGroup(%s)", name)
+		shape += ";via=" + name
+		var out bytes.Buffer
+		w := parquet.NewGenericWriter[any](&out, append([]parquet.WriterOption{src.Schema()}, opts...)...)
+		for _, rg := range src.RowGroups() {
+			if _, err := w.WriteRowGroup(rg); err != nil {
+				x.Failf("write-error", shape, "WriteRowGroup: %v", err)
+				return
+			}
+		}
+		if err := w.Close(); err != nil {
+			x.Failf("write-error", shape, "Close: %v", err)
+			return
+		}
+		data = out.Bytes()
+	}
+	checkFileAgainstSpec(x, shape, data, nil, cfg.maxRows)
+	x.Outcome(fmt.Sprint(len(data)))
 }
 
 func init() {
